@@ -18,6 +18,14 @@ use vh::*;
 
 const CACHE_LINE: usize = 4096;
 
+use std::sync::atomic::{AtomicBool, AtomicU64, Ordering};
+/// the next iterate() calls attach a (discarding) slog logger to the iterator: its `if let Some(log) = self.log` branches keep extra
+/// state (log_skipped) - the recognised messages must not depend on it
+static USE_LOG: AtomicBool = AtomicBool::new(false);
+static LOG_RUNS: AtomicU64 = AtomicU64::new(0);
+static PEEKS: AtomicU64 = AtomicU64::new(0);
+static SEEK_END: AtomicU64 = AtomicU64::new(0);
+
 #[derive(Clone, Debug)]
 enum Mode {
     Full,
@@ -144,6 +152,10 @@ enum Op {
     Read(usize),
     SeekStart(usize),
     SeekCur(i64),
+    /// SeekFrom::End (documented as unsupported by the reader)
+    SeekEnd(i64),
+    /// the accessors buffer() and capacity()
+    Peek,
 }
 
 impl Exec {
@@ -235,6 +247,19 @@ impl Exec {
             Op::SeekCur(d) => {
                 let r = self.rd.seek(SeekFrom::Current(d));
                 self.seek_event("current", d, r)
+            }
+            Op::SeekEnd(d) => {
+                SEEK_END.fetch_add(1, Ordering::Relaxed);
+                let r = self.rd.seek(SeekFrom::End(d));
+                self.seek_event("end", d, r)
+            }
+            Op::Peek => {
+                PEEKS.fetch_add(1, Ordering::Relaxed);
+                let (len, h) = {
+                    let b = self.rd.buffer();
+                    (b.len(), hash31(b))
+                };
+                json!({"ev":"peek","at":self.p,"len":len,"hash":h,"src_hash":self.src_hash(self.p, len),"capacity":self.rd.capacity()})
             }
         }
     }
@@ -366,6 +391,17 @@ fn reader_mode(a: &Args, t: &mut Trace) -> Value {
                     agree = false;
                 }
             }
+            if !ex.dead {
+                // accessors between calls: buffer() must show the source bytes of the predicted window, capacity() the constructor value
+                ex.apply(&Op::Peek, &[]);
+                if let Some(e) = ex.evs.last() {
+                    if e["ev"] != "peek" || e["hash"] != e["src_hash"] || e["capacity"].as_u64() != Some(cap as u64)
+                        || e["at"].as_u64() != Some(e["abs_pos"].as_u64().unwrap_or(0) + e["pos"].as_u64().unwrap_or(0))
+                        || e["len"].as_u64() != Some(e["cap"].as_u64().unwrap_or(0) - e["pos"].as_u64().unwrap_or(0)) {
+                        content_plain = false;
+                    }
+                }
+            }
             let n_scripted = ex.evs.len();
             ex.drain();
             // routing only: anything unusual in the unscripted tail sends the case to TLC
@@ -429,7 +465,11 @@ fn reader_mode(a: &Args, t: &mut Trace) -> Value {
                 break;
             }
             let (_, capn, abs, _) = dbg_state(&ex.rd);
-            let op = match rng.below(10) {
+            let op = match rng.below(12) {
+                10 => Op::Peek,
+                11 => {
+                    if rng.chance(1, 2) { Op::SeekEnd(0) } else { Op::SeekEnd(-(rng.below(srclen as u64 + 1) as i64)) }
+                }
                 0..=3 => Op::Fill,
                 4..=6 => {
                     if ex.avail == 0 {
@@ -506,8 +546,16 @@ impl<R: BufRead> BufRead for Spy<R> {
 /// run the real iterator to exhaustion; one `msg` event per yielded message, then `end`
 fn iterate<R: BufRead>(rd: R, start: u32, win: Option<Rc<Cell<usize>>>, limit: usize) -> Vec<Value> {
     let mut evs = vec![];
+    let logger = slog::Logger::root(slog::Discard, slog::o!());
+    let use_log = USE_LOG.load(Ordering::Relaxed);
+    if use_log {
+        LOG_RUNS.fetch_add(1, Ordering::Relaxed);
+    }
     let r = catch(std::panic::AssertUnwindSafe(|| {
         let mut it = DltMessageIterator::new(start, rd);
+        if use_log {
+            it.log = Some(&logger);
+        }
         let mut out = vec![];
         loop {
             let before = it.bytes_processed;
@@ -703,6 +751,7 @@ fn chunk_mode(a: &Args, t: &mut Trace) -> Value {
         let total = lay.bytes.len();
         let start = if rng.chance(1, 2) { 0 } else { rng.below(1_000_000) as u32 };
         // reference: the whole byte string visible at once
+        USE_LOG.store(false, Ordering::Relaxed);
         let refevs = iterate(&lay.bytes[..], start, None, 100_000);
         let refmsgs: Vec<Value> = refevs.iter().filter(|e| e["ev"] == "msg").map(|e| json!({"index":e["index"],"off":e["off"],"len":e["len"],"hash":e["hash"]})).collect();
         let ref_ok = refevs.last().map(|e| e["ev"] == "end").unwrap_or(false);
@@ -762,7 +811,8 @@ fn chunk_mode(a: &Args, t: &mut Trace) -> Value {
                 sh.borrow_mut().script = script.iter().cloned().collect();
                 let win = Rc::new(Cell::new(0));
                 let rd = Spy { inner: LowMarkBufReader::new(ScriptedReader(sh.clone()), cap, lm), win: win.clone() };
-                t.ev(json!({"ev":"run","kind":"chunk","sched":name,"cap":cap,"lm":lm,"drop":0}));
+                USE_LOG.store((runs + ci as u64) % 2 == 1, Ordering::Relaxed);
+                t.ev(json!({"ev":"run","kind":"chunk","sched":name,"cap":cap,"lm":lm,"drop":0,"log":USE_LOG.load(Ordering::Relaxed)}));
                 for e in iterate(rd, start, Some(win), refmsgs.len() + 5) {
                     if e["ev"] == "msg" && e["win"] == e["len"] {
                         window_exact += 1;
@@ -787,6 +837,7 @@ fn chunk_mode(a: &Args, t: &mut Trace) -> Value {
                     skipped_suffix += 1;
                     continue;
                 }
+                USE_LOG.store(k % 2 == 0, Ordering::Relaxed);
                 t.ev(json!({"ev":"run","kind":"suffix","sched":"slice","cap":0,"lm":0,"drop":k}));
                 for e in iterate(&lay.bytes[cut..], start + k as u32, None, n + 5) {
                     t.ev(e);
@@ -847,6 +898,7 @@ fn token_bytes(rng: &mut Rng, t: u64) -> [u8; 4] {
 fn tail_case(t: &mut Trace, case: u64, rng: &mut Rng, serial: bool, bytes: &[u8], tail_start: usize, claimed: bool, lm: usize, origin: &str, desc: &Value,
     counters: &mut (u64, u64, u64)) {
     let start = if rng.chance(1, 2) { 0 } else { rng.below(1_000_000) as u32 };
+    USE_LOG.store(false, Ordering::Relaxed);
     let refevs = iterate(bytes, start, None, 10_000);
     let refmsgs: Vec<Value> = refevs.iter().filter(|e| e["ev"] == "msg").map(|e| json!({"index":e["index"],"off":e["off"],"len":e["len"],"hash":e["hash"]})).collect();
     let ref_ok = refevs.last().map(|e| e["ev"] == "end").unwrap_or(false);
@@ -867,6 +919,7 @@ fn tail_case(t: &mut Trace, case: u64, rng: &mut Rng, serial: bool, bytes: &[u8]
         let sh = shared(bytes.to_vec(), mode.clone(), case * 31 + i as u64);
         let win = Rc::new(Cell::new(0));
         let rd = Spy { inner: LowMarkBufReader::new(ScriptedReader(sh.clone()), cap, lm), win: win.clone() };
+        USE_LOG.store((case + i as u64) % 2 == 1, Ordering::Relaxed);
         t.ev(json!({"ev":"run","kind":"chunk","sched":name,"cap":cap,"lm":lm,"drop":0}));
         for e in iterate(rd, start, Some(win), refmsgs.len() + 5) {
             t.ev(e);
@@ -878,6 +931,7 @@ fn tail_case(t: &mut Trace, case: u64, rng: &mut Rng, serial: bool, bytes: &[u8]
         if cut > tail_start || (cut == tail_start && !claimed) {
             continue;
         }
+        USE_LOG.store((case + k as u64) % 2 == 0, Ordering::Relaxed);
         t.ev(json!({"ev":"run","kind":"suffix","sched": if cut == tail_start {"slice-tail-alone"} else {"slice"},"cap":0,"lm":0,"drop":k}));
         for e in iterate(&bytes[cut..], start + k as u32, None, refmsgs.len() + 5) {
             t.ev(e);
@@ -1066,5 +1120,11 @@ fn main() {
         x => panic!("unknown mode {}", x),
     };
     t.flush();
+    let mut info = info;
+    if let Some(o) = info.as_object_mut() {
+        o.insert("iterator_runs_with_logger".into(), json!(LOG_RUNS.load(Ordering::Relaxed)));
+        o.insert("peeks".into(), json!(PEEKS.load(Ordering::Relaxed)));
+        o.insert("seek_end_calls".into(), json!(SEEK_END.load(Ordering::Relaxed)));
+    }
     println!("{}", info);
 }
